@@ -412,17 +412,85 @@ def schedule_step(tree):
             "  (tiered_time :: next_steps, if is_earlier then true else newer_step).\n")
 
 
+def cmp_int(e, names):
+    """comparison between two of the integer expressions in names (unparsed text -> Coq term)"""
+    if not (isinstance(e, ast.Compare) and len(e.ops) == 1): bail(e, 'comparison')
+    l, r = ast.unparse(e.left), ast.unparse(e.comparators[0])
+    if l not in names or r not in names: bail(e, f'comparison of {l} and {r}')
+    op = {ast.Lt: '<?', ast.LtE: '<=?', ast.Gt: '>?', ast.GtE: '>=?', ast.Eq: '=?'}.get(type(e.ops[0]))
+    if op is None: bail(e, 'comparison operator')
+    return f'({names[l]} {op} {names[r]})%Z'
+
+
+def is_raise_simerror(st):
+    return isinstance(st, ast.Raise) and isinstance(st.exc, ast.Call) and ast.unparse(st.exc.func) == 'SimulationError'
+
+
+def step_reply(fn):
+    """scheduler.step after `await sim.step(...)`: the validation of the returned next-step time.  Translated: the nesting of
+    the tests and every comparison; checked literally: the statements around them"""
+    body = strip_doc(fn.body)
+    texts = [ast.unparse(x) for x in body]
+    pre = ['assert sim.current_step is not None', "sim.tqdm.set_postfix_str('stepping')", 'sim.is_in_step = True',
+           'next_step_time = await sim.step(sim.current_step.time, inputs, max_advance)', 'sim.last_step = sim.current_step', 'sim.is_in_step = False']
+    if texts[:6] != pre or len(body) != 8: bail(fn, 'shape of step()')
+    names = {'next_step_time': 'v', 'sim.current_step.time': 'cur', 'world.until': 'until'}
+    a, b = body[6], body[7]
+    if not (isinstance(a, ast.If) and ast.unparse(a.test) == 'next_step_time is not None' and not a.orelse and len(a.body) == 3): bail(a, 'reply test')
+    t1, t2, t3 = a.body
+    if not (isinstance(t1, ast.If) and ast.unparse(t1.test) == 'not isinstance(next_step_time, int)' and not t1.orelse and len(t1.body) == 1 and is_raise_simerror(t1.body[0])): bail(t1, 'type test')
+    if not (isinstance(t2, ast.If) and not t2.orelse and len(t2.body) == 1 and is_raise_simerror(t2.body[0])): bail(t2, 'order test')
+    c2 = cmp_int(t2.test, names)
+    if not (isinstance(t3, ast.If) and not t3.orelse and [ast.unparse(x) for x in t3.body] ==
+            ['next_step_tiered_time = TieredTime(next_step_time) + sim.from_world_time', 'sim.schedule_step(next_step_tiered_time)', 'sim.next_self_step = next_step_tiered_time']): bail(t3, 'scheduling of the self-step')
+    c3 = cmp_int(t3.test, names)
+    if not (isinstance(b, ast.If) and not b.orelse and len(b.body) == 1 and is_raise_simerror(b.body[0])
+            and ast.unparse(b.test) == "sim.type == 'time-based' and next_step_time is None"): bail(b, 'missing-reply test')
+    return ("(* scheduler.step, the validation of the reply: RNone = None, RInt v = an int, ROther = anything else *)\n"
+            "Definition step_reply (r : reply) (cur until : Z) (time_based : bool) : step_decision :=\n"
+            "  match r with\n  | ROther => StepErrType\n"
+            f"  | RInt v => if {c2} then StepErrNotLater else StepOk (if {c3} then Some v else None)\n"
+            "  | RNone => if time_based then StepErrMissing else StepOk None\n  end.\n")
+
+
+def output_time_rule(fn):
+    """scheduler.get_outputs: the tiered output time and its validation"""
+    body = strip_doc(fn.body)
+    ifs = [x for x in body if isinstance(x, ast.If) and ast.unparse(x.test) == 'outattr']
+    if len(ifs) != 1: bail(fn, 'get_outputs shape')
+    blk = ifs[0].body
+    texts = [ast.unparse(x) for x in blk]
+    try:
+        i = texts.index("output_time = data.get('time', sim.last_step.time)")
+    except ValueError:
+        bail(fn, 'output_time assignment')
+    st = blk[i + 1]
+    if not (isinstance(st, ast.If) and len(st.body) == 1 and len(st.orelse) == 1 and ast.unparse(st.body[0]) == 'output_tiered_time = sim.current_step'
+            and ast.unparse(st.orelse[0]) == 'output_tiered_time = TieredTime(output_time, *[0] * (len(sim.current_step) - 1))'): bail(st, 'tiered output time')
+    names = {'output_time': 'ot', 'sim.current_step.time': '(thd cur)', 'sim.last_step.time': 'last'}
+    c1 = cmp_int(st.test, names)
+    if texts[i + 2] != 'sim.output_time = output_tiered_time': bail(blk[i + 2], 'output_time store')
+    chk = blk[i + 3]
+    if not (isinstance(chk, ast.If) and not chk.orelse and len(chk.body) == 1 and is_raise_simerror(chk.body[0])): bail(chk, 'output time test')
+    c2 = cmp_int(chk.test, names)
+    return ("(* scheduler.get_outputs: None = 'Output time is not >= time' *)\n"
+            "Definition output_time_rule (ot : Z) (cur : time) (last : Z) : option time :=\n"
+            f"  let output_tiered_time := if {c1} then cur else ot :: repeat 0%Z (length cur - 1) in\n"
+            f"  if {c2} then None else Some output_tiered_time.\n")
+
+
 def main():
     repo, outdir = sys.argv[1], sys.argv[2]
     tree = ast.parse(open(os.path.join(repo, 'mosaik', 'scheduler.py')).read())
     fns = {n.name: n for n in tree.body if isinstance(n, (ast.FunctionDef, ast.AsyncFunctionDef))}
-    for name in ('get_max_advance', 'advance_progress', 'wait_for_dependencies'):
+    for name in ('get_max_advance', 'advance_progress', 'wait_for_dependencies', 'step', 'get_outputs'):
         if name not in fns: raise Unsupported(f'function {name} not found')
     ptree = ast.parse(open(os.path.join(repo, 'mosaik', 'progress.py')).read())
     out = ["(* generated by harness/py2coq_sched.py from mosaik/scheduler.py and mosaik/progress.py -- do not edit; regenerated on every run *)",
            "From Coq Require Import ZArith List Bool Arith.", "Import ListNotations.", "From MV Require Import Time.Spec Sched.Timing Sched.GenView.", "Open Scope Z_scope.", "",
            get_max_advance(fns['get_max_advance']), advance_progress(fns['advance_progress']), progress_class(ptree), wait_for_dependencies(fns['wait_for_dependencies']),
-           schedule_step(ast.parse(open(os.path.join(repo, 'mosaik', 'simmanager.py')).read()))]
+           schedule_step(ast.parse(open(os.path.join(repo, 'mosaik', 'simmanager.py')).read())),
+           step_reply(fns['step']), output_time_rule(fns['get_outputs'])]
     text = '\n'.join(out)
     path = os.path.join(outdir, 'SchedulerFns.v')
     if not os.path.exists(path) or open(path).read() != text:
